@@ -118,33 +118,62 @@ impl From<Operand> for u64 {
 }
 
 impl Axecutor {
-    pub(crate) fn mem_addr(&self, o: MemOperand) -> u64 {
+    /// Reads a register used as base or index of a memory operand. With the 32-bit
+    /// address-size override (0x67) these are 32-bit registers; the second value says so.
+    fn mem_addr_register(&self, reg: SupportedRegister, what: &str) -> (u64, bool) {
+        if iced_x86::Register::from(reg).is_gpr32() {
+            (
+                self.reg_read_32(reg)
+                    .unwrap_or_else(|_| panic!("reading memory operand {what} register")),
+                true,
+            )
+        } else {
+            (
+                self.reg_read_64(reg)
+                    .unwrap_or_else(|_| panic!("reading memory operand {what} register")),
+                false,
+            )
+        }
+    }
+
+    /// The offset part of a memory operand (base + index * scale + displacement), i.e. the
+    /// effective address without the segment base. This is what LEA stores.
+    pub(crate) fn mem_offset(&self, o: MemOperand) -> u64 {
         let MemOperand {
             base,
             index,
             scale,
             displacement,
-            segment,
+            segment: _,
         } = o;
         let mut addr: u64 = 0;
+        let mut addr32 = false;
         if let Some(base) = base {
-            addr = addr.wrapping_add(
-                self.reg_read_64(base)
-                    .expect("reading memory operand base register"),
-            );
+            let (value, is32) = self.mem_addr_register(base, "base");
+            addr32 |= is32;
+            addr = addr.wrapping_add(value);
         }
         if let Some(index) = index {
-            addr = addr.wrapping_add(
-                self.reg_read_64(index)
-                    .expect("reading memory operand index register")
-                    .wrapping_mul(scale as u64),
-            );
+            let (value, is32) = self.mem_addr_register(index, "index");
+            addr32 |= is32;
+            addr = addr.wrapping_add(value.wrapping_mul(scale as u64));
         }
 
         // This overflow is explicitly allowed, as x86-64 encodes negative values as signed integers
         addr = addr.wrapping_add(displacement);
 
-        if let Some(reg) = segment {
+        if addr32 {
+            // 32-bit address size: the effective address wraps at 4 GiB and is zero-extended
+            addr &= 0xffff_ffff;
+        }
+
+        addr
+    }
+
+    pub(crate) fn mem_addr(&self, o: MemOperand) -> u64 {
+        let mut addr = self.mem_offset(o);
+
+        if let Some(reg) = o.segment {
             match reg {
                 SupportedSegmentRegister::FS => {
                     debug_log!(
@@ -200,7 +229,8 @@ impl Axecutor {
                 let base = match i.memory_base() {
                     iced_x86::Register::None => None,
                     // If base is RIP, we can use the displacement as-it. No need to add it to the memory address
-                    iced_x86::Register::RIP => None,
+                    // (EIP is RIP-relative addressing with the 32-bit address-size override, iced already truncated the target)
+                    iced_x86::Register::RIP | iced_x86::Register::EIP => None,
                     r => Some(SupportedRegister::from(r)),
                 };
                 let index = match i.memory_index() {
